@@ -169,10 +169,49 @@ func c13Run(c c13Case) error {
 		if nd%c.MaxTrials != 0 || nd < c.MaxTrials*maxInt(1, sp.Length) {
 			return fmt.Errorf("Generate gave up after %d draws, fewer than MaxTrials=%d whole attempts: %v", nd, c.MaxTrials, o.Err)
 		}
+		// every one of the attempts must really have failed: replay the source
+		// bytes of single attempts as a fresh stream
+		D := nd / c.MaxTrials
+		for _, a := range []int{0, c.MaxTrials / 2, c.MaxTrials - 1} {
+			lo := o.S.Draws[a*D].Pos
+			hi := o.S.Tape.Pos
+			if (a+1)*D < nd {
+				hi = o.S.Draws[(a+1)*D].Pos
+			}
+			seg := make([]byte, 0, hi-lo)
+			for i := lo; i < hi; i++ {
+				seg = append(seg, o.S.Tape.ByteAt(i))
+			}
+			oo := callRaw(&tape.Tape{Script: seg, TailKey: c.Key ^ 0x9e37}, r.Generate)
+			if oo.Pw != nil && oo.S.Tape.Pos == hi-lo {
+				return fmt.Errorf("Generate returned an error (%v) although attempt %d of %d produced the valid candidate %q", o.Err, a+1, c.MaxTrials, oo.Pw.String())
+			}
+		}
 		ev.Class("budget_really_exhausted")
 		return nil
 	}
 	return checkCharPassword(sp, o.Pw)
+}
+
+func c13WithSiblings(c c13Case) error {
+	if err := c13Run(c); err != nil {
+		return err
+	}
+	if c.AllFail {
+		return nil
+	}
+	for i, sib := range gen.Siblings(c.Spec) {
+		d := c
+		d.Spec = sib
+		ev.Eval(1)
+		if err := c13Run(d); err != nil && !ev.IsSkip(err) {
+			if _, inc := err.(*ev.Inc); inc {
+				return err
+			}
+			return fmt.Errorf("after using %+v, the sibling recipe #%d %+v: %w", c.Spec, i, sib, err)
+		}
+	}
+	return nil
 }
 
 func maxInt(a, b int) int {
@@ -279,7 +318,7 @@ func TestC13(t *testing.T) {
 	if !requireHooks(t) {
 		return
 	}
-	ev.Check(t, "c13_char", ev.N(48000, 600000), c13Gen, c13Run)
+	ev.Check(t, "c13_char", ev.N(24000, 300000), c13Gen, c13WithSiblings)
 	ev.Check(t, "c13_bands", ev.N(16000, 200000), c13BandGen, c13Run)
 	ev.Check(t, "c13_wl", ev.N(8000, 80000), func(t *rapid.T) c13WL {
 		return c13WL{
